@@ -143,6 +143,13 @@ def run(ctx: Ctx):
     # B
     m = 260 if not ctx.thorough else 3000
     progs = [gen_prog(ctx.rng, i) for i in range(m)]
+    # corpus: "whatever the previous content was": dict displays that repeat a key (or hold equal keys like 1 and True), at the top and nested
+    H = "from inline_snapshot import snapshot\n\n\ndef test_a():\n"
+    for body in ("    assert {'a': 3, 'b': 2} == snapshot({'a': 1, 'b': 2, 'a': 0})\n",
+                 "    assert {1: 'x', 2: 'y'} == snapshot({1: 'x', 2: 'z', True: 'w'})\n",
+                 "    assert [{'k': 1, 'j': 5}] == snapshot([{'k': 0, 'j': 5, 'k': 2}])\n    assert 4 == snapshot()\n",
+                 "    assert {'a': {'b': 1}} == snapshot({'a': {'b': 0, 'b': 2}, 'a': {'b': 3, 'c': 4}})\n"):
+        progs.append({"source": H + body, "sites": [{"kind": "eq", "old": 1, "new": ("int", 1)}], "opts": {}})
     res = pmap(run_prog, progs, chunksize=4)
     for p, o in zip(progs, res):
         from ..valgen import nontrivial
